@@ -8,7 +8,9 @@
 #include <yaclib/async/run.hpp>
 #include <yaclib/async/shared_contract.hpp>
 #include <yaclib/async/shared_future.hpp>
+#include <yaclib/algo/wait_group.hpp>
 #include <yaclib/async/wait.hpp>
+#include <yaclib/async/wait_for.hpp>
 #include <yaclib/async/when_all.hpp>
 #include <yaclib/async/when_any.hpp>
 #include <yaclib/coro/await.hpp>
@@ -22,8 +24,10 @@
 #include <yaclib/runtime/fair_thread_pool.hpp>
 
 #include <atomic>
+#include <chrono>
 #include <cstdio>
 #include <cstdlib>
+#include <memory>
 #include <random>
 #include <string>
 #include <thread>
@@ -505,6 +509,175 @@ void CoAwait(int iters) {
   tp2.Wait();
 }
 
+// --- C16 / C11: what was done before Done() / Promise::Set is visible after Wait / WaitFor / co_await (memory-model side).
+// The threads learn about each other only through RELAXED flags (no happens-before edge for ThreadSanitizer), so the only
+// thing that orders the plain write with the plain read is the WaitGroup / the wait event itself.
+enum class WgForm { kWait, kWaitFor, kWaitUntil, kAwaitInline, kAwaitSticky, kAwaitOn };
+
+yaclib::Future<> WgAwait(yaclib::WaitGroup<>& wg, WgForm form, int& payload, int& seen) {
+  if (form == WgForm::kAwaitInline) {
+    co_await wg;
+  } else if (form == WgForm::kAwaitSticky) {
+    co_await wg.AwaitSticky();
+  } else {
+    co_await wg.AwaitOn(yaclib::MakeInline());
+  }
+  seen = payload;
+  co_return{};
+}
+
+void WgWaitAndRead(yaclib::WaitGroup<>& wg, WgForm form, int& payload, int& seen, std::atomic<bool>* parked) {
+  using namespace std::chrono_literals;
+  switch (form) {
+    case WgForm::kWait:
+      if (parked) parked->store(true, std::memory_order_relaxed);
+      wg.Wait();
+      seen = payload;
+      break;
+    case WgForm::kWaitFor:
+      if (parked) parked->store(true, std::memory_order_relaxed);
+      if (!wg.WaitFor(20s)) std::abort();
+      seen = payload;
+      break;
+    case WgForm::kWaitUntil:
+      if (parked) parked->store(true, std::memory_order_relaxed);
+      if (!wg.WaitUntil(std::chrono::steady_clock::now() + 20s)) std::abort();
+      seen = payload;
+      break;
+    default: {
+      auto f = WgAwait(wg, form, payload, seen);  // suspends unless the count is already zero
+      if (parked) parked->store(true, std::memory_order_relaxed);
+      std::ignore = std::move(f).Get();
+    } break;
+  }
+}
+
+// a waiter that ARRIVES AFTER the count reached zero (TryAdd / Ready() see the all-done sentinel): its only synchronisation
+// with the thread that did the last Done() is the head word (SetImpl's exchange must release, the waiter's load acquires)
+void WaitGroupLate(int iters) {
+  const WgForm forms[] = {WgForm::kWait, WgForm::kWaitFor, WgForm::kWaitUntil, WgForm::kAwaitInline, WgForm::kAwaitSticky,
+                          WgForm::kAwaitOn};
+  const int rounds = iters / 25 + 1;
+  for (int r = 0; r < rounds; ++r) {
+    for (auto form : forms) {
+      auto payload = std::make_unique<int>(0);  // own address per run
+      yaclib::WaitGroup<> wg{1};
+      std::atomic<bool> zero_reached{false};
+      int seen = -1;
+      std::thread setter{[&] {
+        *payload = 42;
+        wg.Done();  // 1 -> 0: Set()
+        zero_reached.store(true, std::memory_order_relaxed);
+      }};
+      std::thread late{[&] {
+        while (!zero_reached.load(std::memory_order_relaxed)) std::this_thread::yield();
+        WgWaitAndRead(wg, form, *payload, seen, nullptr);
+      }};
+      setter.join();
+      late.join();
+      if (seen != 42) std::abort();
+    }
+  }
+}
+
+// the Done() / future completion that takes the count to zero is NOT the one whose writes are read afterwards: worker A's
+// release on the counter must be acquired by worker B (which reaches zero and hands over to the waiters through the event)
+void WaitGroupTwoDoners(int iters) {
+  using namespace std::chrono_literals;
+  const WgForm forms[] = {WgForm::kWait, WgForm::kWaitFor, WgForm::kAwaitInline, WgForm::kAwaitSticky, WgForm::kAwaitOn};
+  const int rounds = iters / 50 + 1;
+  for (int r = 0; r < rounds; ++r) {
+    for (bool futures : {false, true}) {
+      for (auto form : forms) {
+        auto payload = std::make_unique<int>(0);
+        yaclib::WaitGroup<> wg{futures ? 1U : 2U};
+        auto [f1, p1] = yaclib::MakeContract<int>();
+        auto [f2, p2] = yaclib::MakeContract<int>();
+        if (futures) {
+          wg.Attach(f1, f2);  // Add while the count is non-zero
+          wg.Done();
+        }
+        std::atomic<bool> parked{false};
+        std::atomic<bool> a_done{false};
+        int seen = -1;
+        int seen_result = -1;
+        std::thread waiter{[&] {
+          WgWaitAndRead(wg, form, *payload, seen, &parked);
+          // Touch(): no Ready()/Get() on f1, which would synchronise through the future's own word
+          if (futures) seen_result = std::as_const(f1).Touch().Value();
+        }};
+        while (!parked.load(std::memory_order_relaxed)) std::this_thread::yield();
+        std::this_thread::sleep_for(1ms);  // let the blocking forms enqueue (a late waiter is WaitGroupLate's business)
+        std::thread worker_a{[&] {
+          *payload = 42;
+          if (futures) std::move(p1).Set(7);  // callback: Sub(1), 2 -> 1
+          else wg.Done();                     // 2 -> 1
+          a_done.store(true, std::memory_order_relaxed);
+        }};
+        std::thread worker_b{[&] {
+          while (!a_done.load(std::memory_order_relaxed)) std::this_thread::yield();
+          if (futures) std::move(p2).Set(8);  // callback: Sub(1), 1 -> 0: Set()
+          else wg.Done();                     // 1 -> 0: Set()
+        }};
+        worker_a.join();
+        worker_b.join();
+        waiter.join();
+        if (seen != 42 || (futures && seen_result != 7)) std::abort();
+        if (!futures) {  // the promises were not used
+          std::move(p1).Set(0);
+          std::move(p2).Set(0);
+        }
+      }
+    }
+  }
+}
+
+void WaitGroupBoth(int iters) {
+  WaitGroupLate(iters);
+  WaitGroupTwoDoners(iters);
+}
+
+// C11: Wait(f1, f2) / WaitFor(t, f1, f2) share one counter: producer A (not the last) writes plain data before Set, producer B
+// completes last and wakes the waiter; the waiter reads A's plain data without touching f1's word again
+void WaitTwoProducers(int iters) {
+  using namespace std::chrono_literals;
+  const int rounds = iters / 25 + 1;
+  for (int r = 0; r < rounds; ++r) {
+    for (bool timed : {false, true}) {
+      auto payload = std::make_unique<int>(0);
+      auto [f1, p1] = yaclib::MakeContract<int>();
+      auto [f2, p2] = yaclib::MakeContract<int>();
+      std::atomic<bool> parked{false};
+      std::atomic<bool> a_done{false};
+      int seen = -1;
+      std::thread waiter{[&] {
+        parked.store(true, std::memory_order_relaxed);
+        if (timed) {
+          if (!yaclib::WaitFor(20s, f1, f2)) std::abort();
+        } else {
+          yaclib::Wait(f1, f2);
+        }
+        seen = *payload;
+      }};
+      while (!parked.load(std::memory_order_relaxed)) std::this_thread::yield();
+      std::this_thread::sleep_for(1ms);  // let the waiter register its event in both words
+      std::thread producer_a{[&, p1 = std::move(p1)]() mutable {
+        *payload = 42;
+        std::move(p1).Set(7);
+        a_done.store(true, std::memory_order_relaxed);
+      }};
+      std::thread producer_b{[&, p2 = std::move(p2)]() mutable {
+        while (!a_done.load(std::memory_order_relaxed)) std::this_thread::yield();
+        std::move(p2).Set(8);
+      }};
+      producer_a.join();
+      producer_b.join();
+      waiter.join();
+      if (seen != 42) std::abort();
+    }
+  }
+}
+
 }  // namespace
 
 int main(int argc, char** argv) {
@@ -517,10 +690,12 @@ int main(int argc, char** argv) {
                    {"when_any", WhenAnyFirst},                    {"pool_pipeline", PoolPipeline},
                    {"handoff_race", HandOffRace},                 {"strand_inline", StrandInline},
                    {"strand_spawn", StrandSpawn},                 {"comutex", CoMutex},
-                   {"cosharedmutex", CoSharedMutex},         {"coawait", CoAwait}};
+                   {"cosharedmutex", CoSharedMutex},         {"coawait", CoAwait},
+                   {"waitgroup_late", WaitGroupLate},             {"waitgroup_two_doners", WaitGroupTwoDoners},
+                   {"waitgroup", WaitGroupBoth},                  {"wait_two_producers", WaitTwoProducers}};
   bool ran = false;
   for (auto& s : all) {
-    if (sc == "all" || sc == s.name) {
+    if ((sc == "all" && std::string(s.name) != "waitgroup") || sc == s.name) {
       s.fn(iters);
       std::printf("scenario %s done\n", s.name);
       ran = true;
